@@ -281,13 +281,16 @@ def builtin_digits(di: int, dj: int, nd: int, big: bool) -> None:
     hlib.done()
 
 
-def operator_digits(di: int, dj: int, big: bool, ia: bool, ib: bool) -> None:
+def operator_digits(di: int, dj: int, big: bool, ia: bool, ib: bool, warm: int = 0) -> None:
     """
-    pre: 0 <= di < 8 and 0 <= dj < 8
+    pre: 0 <= di < 8 and 0 <= dj < 8 and 0 <= warm <= 2
     post: True
     """
     hlib.enter(locals())
     op = hlib.PARAM["op"]
+    # warm: the SAME tree node has been evaluated before - on two Decimals (1) or on two strings / lists (2): what a
+    # node learnt from earlier operands must not change how it treats these
+    warm = hlib.concrete(warm, 0, 2)
     di, dj = hlib.concrete(di, 0, 7), hlib.concrete(dj, 0, 7)
     a = BIG[di % 2] if big else DPOOL[di]
     b = DPOOL[dj]
@@ -298,14 +301,39 @@ def operator_digits(di: int, dj: int, big: bool, ia: bool, ib: bool) -> None:
     raised, r = None, None
     with _CtxGuard():
         try:
+            w0, w1 = (DPOOL[1], DPOOL[2]) if warm == 1 else ('ab', 'cd')
             if op == 'neg':
-                r = UnaryOp('-', Stub([], 0, a)).eval(mkstate(0, 100))
+                s0 = Stub([], 0, w0)
+                node = UnaryOp('-', s0)
+                if warm:
+                    try:
+                        node.eval(mkstate(0, 100))
+                    except Exception:
+                        pass
+                s0.result = a
+                r = node.eval(mkstate(0, 100))
             elif op.endswith('='):
+                s0 = Stub([], 0, w1)
+                node = ShortOp('x', op, s0)
+                if warm:
+                    try:
+                        node.eval(mkstate(0, 100, host={'x': w0}))
+                    except Exception:
+                        pass
+                s0.result = b
                 host = {'x': a}
-                ShortOp('x', op, Stub([], 0, b)).eval(mkstate(0, 100, host=host))
+                node.eval(mkstate(0, 100, host=host))
                 r = host['x']
             else:
-                r = BinOp(op, Stub([], 0, a), Stub([], 1, b)).eval(mkstate(0, 100))
+                s0, s1 = Stub([], 0, w0), Stub([], 1, w1)
+                node = BinOp(op, s0, s1)
+                if warm:
+                    try:
+                        node.eval(mkstate(0, 100))
+                    except Exception:
+                        pass
+                s0.result, s1.result = a, b
+                r = node.eval(mkstate(0, 100))
         except AssertionError:
             raise
         except Exception as e:
@@ -403,4 +431,57 @@ def power_overflow(bi: int, ei: int, short: bool) -> None:
         nd = _digits(r) if raised is None and not isinstance(r, bool) else 0
         unchanged = short and raised is None and r is a
     assert raised is not None or unchanged or nd <= 28, "%d ** %d on host ints returned a number of %d significant digits" % (a, b, nd)
+    hlib.done()
+
+
+# compound assignment on an ITEM (o[k] op= v), for every compound operator the real lexer knows (discovered at run time)
+CANDIDATE_OPS = ['+=', '-=', '*=', '/=', '**=', '//=', '%=', '^=', '@=', '<<=', '>>=', '|=', '&=']
+IEXP = [2, 3, 5000, 7, True, 0, 10 ** 30 + 7, 40]
+
+
+def known_short_ops():
+    from sqv.harness import txt as _t
+    out = []
+    for op in CANDIDATE_OPS:
+        toks = None
+        try:
+            lx = _t.PARSER.lex.clone()
+            lx.input('a ' + op + ' 1')
+            toks = []
+            while True:
+                t = lx.token()
+                if t is None:
+                    break
+                toks.append((t.type, t.value))
+        except Exception:
+            toks = None
+        if toks and len(toks) == 3 and toks[1][1] == op:
+            out.append(op)
+    return out
+
+
+def item_operator_digits(ai: int, bi: int, as_list: bool) -> None:
+    """
+    pre: 0 <= ai < 8 and 0 <= bi < 8
+    post: True
+    """
+    hlib.enter(locals())
+    op = hlib.PARAM["op"]
+    ai, bi = hlib.concrete(ai, 0, 7), hlib.concrete(bi, 0, 7)
+    as_list = True if as_list else False
+    with hlib.native():
+        a, b = IPOOL[ai], IEXP[bi]
+        cont = [a] if as_list else {'n': a}
+        key = 0 if as_list else 'n'
+        raised = None
+        try:
+            FUNCTIONS['__setitem_with_op__'](cont, key, op, b)
+        except Exception as e:
+            raised = e
+        r = cont[key]
+        nd = _digits(r) if not isinstance(r, (bool, str, list, dict, type(None))) else 0
+        kind = type(r).__name__
+        repeated = isinstance(r, (str, list)) and not isinstance(a, (str, list))
+    assert not repeated, "o[k] %s v repeated a string / list" % op
+    assert nd <= max(28, max(_digits(a), _digits(b)) + 1), "o[k] %s v on host numbers %r, %r left a %s of %d significant digits in the container" % (op, a, b, kind, nd)
     hlib.done()
